@@ -279,6 +279,23 @@ func stmtKind(q string) string {
 	return "select"
 }
 
+// aggregates whose generated IsNullable returns false (unary_aggs.og.go) although they yield NULL without a value
+var aggLabels = map[string]bool{"SUM": true, "MIN": true, "MAX": true, "FIRST": true, "LAST": true, "FIRST_VALUE": true, "LAST_VALUE": true,
+	"ANY_VALUE": true, "GROUP_CONCAT": true, "STD": true, "STDDEV": true, "STDDEV_POP": true, "STDDEV_SAMP": true, "VAR_POP": true, "VAR_SAMP": true, "VARIANCE": true}
+
+// notNullRootCause classifies a NULL in a NOT NULL column by the mechanism that produced it (not by the literal query)
+func notNullRootCause(label, kind string) string {
+	switch {
+	case aggLabels[label]:
+		return "not-null-column-has-null/aggregate-without-value" // any statement kind: same IsNullable()==false
+	case label == "expr" && (kind == "left-join" || kind == "right-join"):
+		return "not-null-column-has-null/outer-join-padded-side"
+	case label == "expr" && kind == "subquery":
+		return "not-null-column-has-null/derived-column-of-aggregate"
+	}
+	return "not-null-column-has-null/" + label + "/" + kind
+}
+
 // checkResult evaluates the property predicate on one result set.
 func checkResult(c *lib.Ctx, id int, ctx *sql.Context, cs caseT, q string, res eng.Result) {
 	c.PredChecked()
@@ -293,7 +310,7 @@ func checkResult(c *lib.Ctx, id int, ctx *sql.Context, cs caseT, q string, res e
 			label := colLabel(col.Name)
 			if v == nil {
 				if !col.Nullable {
-					sig := "not-null-column-has-null/" + label + "/" + stmtKind(q)
+					sig := notNullRootCause(label, stmtKind(q))
 					if !reported[sig] {
 						reported[sig] = true
 						c.PredFail(id, sig, fmt.Sprintf("%s: column %q is reported NOT NULL (type %s) but a row holds NULL", q, col.Name, col.Type), cs)
@@ -457,6 +474,14 @@ func runModel(c *lib.Ctx, cs caseT) {
 var mixSetup = []string{
 	"CREATE TABLE t (id BIGINT PRIMARY KEY, g BIGINT, a BIGINT, x BIGINT, s VARCHAR(20), c VARCHAR(20) COLLATE utf8mb4_0900_ai_ci, d DECIMAL(10,2), f DOUBLE, dt DATE, KEY ia (a))",
 	"CREATE TABLE u (id BIGINT PRIMARY KEY, a BIGINT NOT NULL, n INT, v VARCHAR(10) NOT NULL)",
+	"CREATE TABLE w (id BIGINT PRIMARY KEY, i INT, iu INT UNSIGNED, bi BIGINT, bu BIGINT UNSIGNED, si SMALLINT, su SMALLINT UNSIGNED)",
+}
+
+// same-width signed/unsigned pairs with unsigned values above the signed maximum
+var wRows = []string{
+	"INSERT INTO w VALUES (1, -5, 4294967295, -7, 18446744073709551615, -3, 65535)",
+	"INSERT INTO w VALUES (2, 2147483647, 3000000000, 9223372036854775807, 9223372036854775808, 32767, 40000)",
+	"INSERT INTO w VALUES (3, NULL, 7, NULL, 9, NULL, 1)",
 }
 
 func genMixData(r *lib.RNG) []string {
@@ -473,6 +498,11 @@ func genMixData(r *lib.RNG) []string {
 			nv(fmt.Sprint(r.Range(0, 3))), nv(fmt.Sprint(r.Range(-20, 50))), nv("'"+lib.Pick(r, []string{"a", "b", "A", ""})+"'"),
 			nv("'"+lib.Pick(r, []string{"a", "B", "b"})+"'"), nv(fmt.Sprintf("%d.%02d", r.Range(-5, 30), r.Range(0, 99))),
 			nv(fmt.Sprintf("%d.5", r.Range(-3, 9))), nv(fmt.Sprintf("'2024-0%d-1%d'", r.Range(1, 9), r.Range(0, 9)))))
+	}
+	for _, wr := range wRows {
+		if r.Chance(3, 4) {
+			out = append(out, wr)
+		}
 	}
 	m := r.Range(0, 4)
 	for i := 1; i <= m; i++ {
@@ -514,6 +544,17 @@ func genMixQuery(r *lib.RNG) string {
 		"SELECT v FROM u UNION ALL SELECT id FROM u",
 		"SELECT a FROM t INTERSECT SELECT a FROM u",
 		"SELECT a FROM u EXCEPT SELECT a FROM t",
+		// set operation inside a derived table / CTE: NOT NULL branch with a nullable branch
+		"SELECT * FROM (SELECT a FROM u UNION SELECT n FROM u) x",
+		"SELECT * FROM (SELECT n FROM u UNION ALL SELECT a FROM u) x",
+		"WITH x AS (SELECT a FROM u UNION ALL SELECT n FROM u) SELECT * FROM x",
+		"SELECT * FROM (SELECT id FROM t UNION SELECT x FROM t) q",
+		"SELECT q.c + 1 FROM (SELECT a AS c FROM u UNION SELECT a FROM t) q",
+		// same-width signed / unsigned integer pairs
+		"SELECT id, CASE WHEN id > 1 THEN " + lib.Pick(r, []string{"i ELSE iu", "iu ELSE i", "bi ELSE bu", "bu ELSE bi", "si ELSE su"}) + " END FROM w",
+		"SELECT id, " + lib.Pick(r, []string{"COALESCE(i, iu)", "COALESCE(bi, bu)", "IF(id > 1, bu, bi)", "IF(id = 1, iu, i)", "IFNULL(bi, bu)", "GREATEST(bi, bu)", "LEAST(i, iu)", "bi + bu", "iu - i", "bu * 1"}) + " FROM w",
+		"SELECT * FROM (SELECT " + lib.Pick(r, []string{"i FROM w UNION SELECT iu", "iu FROM w UNION ALL SELECT i", "bi FROM w UNION SELECT bu", "bu FROM w UNION ALL SELECT bi", "si FROM w UNION SELECT su"}) + " FROM w) x",
+		"SELECT " + lib.Pick(r, []string{"i FROM w UNION SELECT iu", "bi FROM w UNION SELECT bu", "bu FROM w UNION ALL SELECT bi"}) + " FROM w",
 		// subqueries
 		"SELECT id, (SELECT MAX(n) FROM u WHERE u.a = t.a) FROM t",
 		"SELECT id, EXISTS (SELECT 1 FROM u WHERE u.a = t.a), a IN (SELECT a FROM u) FROM t",
@@ -583,14 +624,20 @@ func main() {
 			"SELECT id, LEAD(x, 1, 0) OVER (ORDER BY id) FROM t",
 			"SELECT t.id, u.a, u.v FROM t LEFT JOIN u ON t.a = u.a",
 			"SELECT a FROM t UNION SELECT n FROM u",
+			"SELECT * FROM (SELECT a FROM u UNION SELECT n FROM u) x",
+			"WITH x AS (SELECT a FROM u UNION ALL SELECT n FROM u) SELECT * FROM x",
+			"SELECT id, CASE WHEN id > 1 THEN i ELSE iu END FROM w",
+			"SELECT id, CASE WHEN id > 1 THEN bi ELSE bu END FROM w",
+			"SELECT * FROM (SELECT i FROM w UNION SELECT iu FROM w) x",
+			"SELECT * FROM (SELECT bi FROM w UNION SELECT bu FROM w) x",
 			"SELECT g, MAX(x), MIN(x), SUM(x) FROM t GROUP BY g",
 			"SELECT u.a, COUNT(t.id), SUM(t.x) FROM u LEFT JOIN t ON t.a = u.a GROUP BY u.a",
 			"SELECT t.id, u.id, u.v, t.s FROM t RIGHT JOIN u ON t.a = u.a",
 			"SELECT q.m, q.c FROM (SELECT MAX(x) AS m, COUNT(*) AS c FROM t WHERE id > 100) q",
 		} {
-			run(c, caseT{Kind: "sql", Setup: append(append([]string(nil), mixSetup...), mixRows...), SQL: q})
+			run(c, caseT{Kind: "sql", Setup: append(append(append([]string(nil), mixSetup...), mixRows...), wRows...), SQL: q})
 		}
-		for i := 12; i < c.N; i++ {
+		for i := 18; i < c.N; i++ {
 			r := c.R.Fork()
 			if r.Bool() {
 				n := r.Range(1, 4)
